@@ -21,6 +21,8 @@ structure Pkg where
   pkgPath : String
   hasErr : Bool          -- translatePackage returned an error (conversion or load error)
   prior : Prior
+  noOutput : Bool := false   -- the error left no translation at all (load error, package refused): nothing to write
+
   deriving Repr
 
 structure Outcome where
@@ -35,7 +37,7 @@ def outPath (p : Pkg) : String := importToPath p.pkgPath
 def loop (ignoreErrors : Bool) : List Pkg → Bool → List String → List String → Outcome
   | [], someError, w, u => { exit := if someError then 1 else 0, written := w.reverse, untouched := u.reverse }
   | p :: ps, someError, w, u =>
-    if p.hasErr && !ignoreErrors then loop ignoreErrors ps true w u
+    if p.hasErr && (!ignoreErrors || p.noOutput) then loop ignoreErrors ps true w u
     else
       let someError' := someError || p.hasErr
       match p.prior with
